@@ -24,6 +24,8 @@ TNext ==
        [] e.ev = "Read"  -> Read(e)  /\ Rec(ReadFailed(e))
        [] e.ev = "End"   -> End(e)   /\ Rec(EndFailed(e))
        \* member-by-member reading: the Header values kept across Reset are still each member's own
+       \* mechanism events of the Reader (hooks): judged by ReaderMechTrace, not by the contract
+       [] e.ev = "RMech" -> UNCHANGED <<rvars, viol, noted>>
        [] e.ev = "Hdrs"  -> UNCHANGED rvars /\ Rec(Chk("C08.member_headers", e.ok))
        [] e.ev \in {"Crash", "Hang"} -> UNCHANGED rvars /\ RecBegin({"C03.nopanic", "C03.terminates"})
 
